@@ -390,6 +390,14 @@ let check_G line toks =
   let get k = List.assoc_opt k fs in
   let id = match get "id" with Some x -> x | None -> "?" in
   bump "G-records";
+  (* the library's own export -> import round trip needs no model: it is checked on every record that carries it, also after
+     the model and the library have parted ways *)
+  (match get "rt" with Some "ok" | None -> () | Some x -> report "G" id "rt" "ok" x line);
+  (* likewise the other observations the library makes about itself: a rejected action changes nothing, the last recorded
+     position is the current one, the game's getters agree with the board's *)
+  (match get "unch" with Some "changed" -> report "G" id "unch" "ok" "changed" line | _ -> ());
+  (match get "lasteq" with Some "ok" | None -> () | Some x -> report "G" id "lasteq" "ok" x line);
+  (match get "getters" with Some "ok" | None -> () | Some x -> report "G" id "getters" "ok" x line);
   let node : gnode option =
     match get "parent" with
     | Some "-" ->
@@ -441,7 +449,7 @@ let check_G line toks =
          let np = List.length g.g_positions and nm = List.length g.g_moves in
          exp "np" (string_of_int np); exp "nm" (string_of_int nm); exp "nmeta" (string_of_int (List.length g.g_meta));
          exp "cnt" (dec_of_n (position_counter g g.g_pos));
-         exp "lasteq" "ok"; exp "getters" "ok";
+
          (match last g.g_moves, last g.g_meta with
           | Some m, Some p -> exp "last" (mv_str m);
             exp "fl" (Printf.sprintf "%d%d%d%s" (if p.mp_capture then 1 else 0) (if p.mp_check then 1 else 0) (if p.mp_mate then 1 else 0) (amb_str p.mp_amb))
@@ -476,7 +484,7 @@ let check_G line toks =
          (match get "pgn" with
           | Some got ->
             bump "G-pgn";
-            exp "rt" "ok";
+
             (match as_pgn_unwrapped g with
              | Ok p -> let e = squeeze (string_of_bytes p) and gt = squeeze (unhex got) in
                if e <> gt then report "G" id "pgn" (tohex e) (tohex gt) line
